@@ -11,8 +11,25 @@ Oracles:
   O2 starting from a flat map no two neighbouring tiles (diagonals included) differ by more than one level
   O3 nothing but elevations changed (size, tile count, terrain_id, layer, index of every tile)
 """
-import contextlib, io
+import contextlib, io, signal
 from harness import common
+
+
+class CaseTimeout(Exception):
+    """a single set_elevation call did not return within the per-call limit"""
+
+
+def timed(fn, secs):
+    """common.outcome(fn) with a wall-clock limit (the real call normally takes milliseconds)"""
+    def on_alarm(sig, frame):
+        raise CaseTimeout()
+    old = signal.signal(signal.SIGALRM, on_alarm)
+    signal.setitimer(signal.ITIMER_REAL, secs)
+    try:
+        return common.outcome(fn)
+    finally:
+        signal.setitimer(signal.ITIMER_REAL, 0)
+        signal.signal(signal.SIGALRM, old)
 
 
 def run(ctx):
@@ -20,9 +37,9 @@ def run(ctx):
     from AoE2ScenarioParser.scenarios.aoe2_de_scenario import AoE2DEScenario
 
     R = common.Result(
-        "exhaustive: flat maps of size 1..6 (quick) / 1..9 (thorough) x all rectangles x1<=x2,y1<=y2 (1x1 and "
+        "exhaustive: flat maps of size 1..7 (quick) / 1..9 (thorough) x all rectangles x1<=x2,y1<=y2 (1x1 and "
         "border-touching included, single tiles also through the (x, y)-only call) x base, target in 0..4; a seeded sample "
-        "of the 7..9 maps in quick; seeded random flat maps up to 40x40 with level differences up to 12; seeded random "
+        "of the 8x8 and 9x9 maps in quick; seeded random flat maps up to 40x40 with level differences up to 12; seeded random "
         "NON-flat start maps up to 10x10 (O1, O3 and model = code only); reversed / outside rectangles (ok/error and "
         "result). non-trivial = target != base and the rectangle does not cover the whole map (so the recursion has "
         "work to do); distinct by (size, base or map digest, target, rectangle, call form)")
@@ -33,6 +50,8 @@ def run(ctx):
 
     cmds, expect, meta = [], [], []
     seen_viol = set()
+    state = {"timeouts": 0}
+    LIMIT = 10.0
 
     def add(cmd, obs, m=None):
         cmds.append(cmd); expect.append(obs); meta.append(m)
@@ -106,6 +125,8 @@ def run(ctx):
     # ------------------------------------------------------------------ one case
     def case(s, start, e, x1, y1, x2, y2, form="rect", tag="flat"):
         """start: int (flat base) or list of elevations. form: rect | point (x2, y2 omitted) | half (only x2 given)"""
+        if state["timeouts"] >= 2:
+            return                      # the call does not terminate: reported below, nothing more to learn
         set_size(s)
         flat = isinstance(start, int)
         init = [start] * (s * s) if flat else list(start)
@@ -113,14 +134,19 @@ def run(ctx):
             t.elevation = v
         before_other = others()
         if form == "point":
-            st, _ = common.outcome(lambda: mm.set_elevation(e, x1, y1))
+            st, err = timed(lambda: mm.set_elevation(e, x1, y1), LIMIT)
             args = f"{e} {x1} {y1} None None"
         else:
-            st, _ = common.outcome(lambda: mm.set_elevation(e, x1, y1, x2, y2))
+            st, err = timed(lambda: mm.set_elevation(e, x1, y1, x2, y2), LIMIT)
             args = f"{e} {x1} {y1} {x2} {y2}"
         el = elevs()
         m = {"op": "flat" if flat else "map", "size": s, "base": start if flat else None, "elevations": None if flat else init,
              "target": e, "rect": [x1, y1, x2, y2], "form": form}
+        if st == "error" and err == "CaseTimeout":
+            state["timeouts"] += 1
+            violation({"op": "set_elevation", "class": "does-not-return"},
+                      f"set_elevation({args}) on a {s}x{s} map did not return within {LIMIT} s (it normally takes milliseconds)", m)
+            return
         add(f"flat {s} {start}" if flat else f"flat {s} 0", None)          # answer not compared (dump of a fresh map)
         if not flat:
             add("elevs " + il(init), "ok")
@@ -180,7 +206,7 @@ def run(ctx):
                         yield x1, y1, x2, y2
 
     levels = range(0, 5)
-    full = range(1, 7) if ctx.quick else range(1, 10)
+    full = range(1, 8) if ctx.quick else range(1, 10)
     for s in full:
         for (x1, y1, x2, y2) in all_rects(s):
             for b in levels:
@@ -189,7 +215,7 @@ def run(ctx):
                     if x1 == x2 and y1 == y2 and e == (b + 2) % 5:
                         case(s, b, e, x1, y1, x2, y2, form="point")
     if ctx.quick:
-        for s in (7, 8, 9):
+        for s in (8, 9):
             rects = list(all_rects(s))
             for (x1, y1, x2, y2) in rng.sample(rects, ctx.budget(120, 0)):
                 b, e = rng.choice(levels), rng.choice(levels)
